@@ -7,7 +7,8 @@ def main(chk: core.Check, replay):
     if replay:
         return core.replay_generic(chk, replay)
     structural.run(chk, "C12")
-    tracesleg.run(chk, 'C12')
+    extra = [(f"gen{i}", t) for i, t in enumerate(getattr(chk, "last_structural_texts", [])[:24])]
+    tracesleg.run(chk, 'C12', extra_models=extra)
 
 
 if __name__ == "__main__":
